@@ -104,4 +104,6 @@ def run(ctx):
     rep.floor('R01.2', 'agreeing keys', n_keys, 3 * 16 * ns)
     from rules import profile
     profile.check(ctx, rep, 'R01.P', ['creg_start', 'creg_finish', 'sreg_start', 'clog_start', 'clog_finish', 'slog_start', 'slog_finish'])
+    from rules import lclone
+    lclone.check(ctx, rep, 'R01.C')
     return rep
